@@ -111,8 +111,10 @@ class State:
 
 class Policy:
     """What to inline and how to name opaque calls."""
-    def __init__(self, facts, level="prim", keep=(), max_depth=12, inline_extra=()):
+    def __init__(self, facts, level="prim", keep=(), max_depth=12, inline_extra=(), inline_private=False):
         self.facts = facts
+        self.inline_private = inline_private
+        self._loopy = {}
         self.level = level          # "prim": inline every local callee; "op": keep operators opaque
         self.keep = set(keep)       # idents never inlined
         self.inline_extra = set(inline_extra)
@@ -127,6 +129,47 @@ class Policy:
             return ("assign", ASSIGN_TRAITS[body.trait], strip_ref(body.self_ty),
                     strip_ref(body.trait_args[0]) if body.trait_args else strip_ref(body.self_ty))
         return None
+
+    def has_loop_or_recursion(self, callee):
+        k = callee.key
+        if k in self._loopy:
+            return self._loopy[k]
+        m = callee.mir
+        # back edge detection by DFS
+        succ = {}
+        rec = False
+        for i, b in enumerate(m["blocks"]):
+            t = b["t"]; out = []
+            kk = t["k"]
+            if kk in ("goto", "drop", "assert"):
+                out.append(t["t"])
+            elif kk == "call":
+                if t["t"] is not None:
+                    out.append(t["t"])
+                r = (t.get("f") or {}).get("res") or {}
+                if r.get("key") == callee.key:
+                    rec = True
+            elif kk == "switch":
+                out.extend(t["targets"]); out.append(t["otherwise"])
+            succ[i] = out
+        color = {}
+        loop = False
+        stack = [(0, iter(succ[0]))]
+        color[0] = 1
+        while stack and not loop:
+            n, it = stack[-1]
+            for c in it:
+                if color.get(c) == 1:
+                    loop = True; break
+                if c not in color:
+                    color[c] = 1
+                    stack.append((c, iter(succ[c])))
+                    break
+            else:
+                color[n] = 2
+                stack.pop()
+        self._loopy[k] = loop or rec
+        return self._loopy[k]
 
     def is_accessor(self, callee):
         """single-block bodies without calls or arithmetic (field getters such as hi()/lo())"""
@@ -153,6 +196,9 @@ class Policy:
         if self.level == "prim":
             return True
         if callee.ident() in self.inline_extra:
+            return True
+        if self.inline_private and not callee.reachable and callee.kind != "Closure" and self.op_of(callee) is None \
+                and not self.has_loop_or_recursion(callee):
             return True
         # op level: inline only conversions between TwoFloat and tuples/arrays (pure projections)
         if callee.trait == "core::convert::From" and callee.name == "from":
@@ -423,6 +469,15 @@ class Exec:
         if ty == "f64" or ty == "f32":
             m = {"Add": "add", "Sub": "sub", "Mul": "mul", "Div": "div", "Rem": "rem"}
             if op in m:
+                if ty == "f64" and is_const(a) and is_const(b) and op != "Rem":
+                    # the same IEEE operation rustc would emit, evaluated on two literals
+                    x, y = F.f64_from_bits(cint(a)), F.f64_from_bits(cint(b))
+                    try:
+                        r = {"Add": x + y, "Sub": x - y, "Mul": x * y, "Div": (x / y) if y != 0 else None}[op]
+                    except OverflowError:
+                        r = None
+                    if r is not None and r == r:
+                        return f64c(r)
                 return mk("f", m[op], a, b)
             c = {"Lt": "lt", "Le": "le", "Gt": "gt", "Ge": "ge", "Eq": "eq", "Ne": "ne"}
             if op in c:
@@ -936,7 +991,8 @@ class Shower:
                 kn = k[1] + "::" + k[3]
             return "%s{%s}" % (kn, ", ".join(s(a) if a is not None else "_" for a in t[2]))
         if tg == "carray":
-            return "carray<%s>#%s" % (t[1], t[2][:8])
+            import hashlib
+            return "carray<%s>#%s" % (t[1], hashlib.sha1(t[2].encode()).hexdigest()[:8])
         if tg == "not":
             return "!%s" % s(t[1])
         return "%s(%s)" % (tg, ", ".join(s(a) for a in t[1:]))
